@@ -23,7 +23,7 @@ CHECKS = {
 }
 
 # properties whose checks are registered (theorems proved, check green on the unchanged tree)
-READY = {'C16', 'C12', 'C06', 'C13', 'C14', 'C20', 'C08', 'C03', 'C01', 'C19', 'C05', 'C07', 'C15', 'C17'}
+READY = {'C16', 'C12', 'C06', 'C13', 'C14', 'C20', 'C08', 'C03', 'C01', 'C19', 'C05', 'C07', 'C15', 'C17', 'C09', 'C04'}
 
 CHECKS['C12'] = (
     'Lean 4 theorems: round trip parse(encodeOps ops) = annotate ops for every well-formed operation sequence (any length, nesting depth, '
@@ -142,6 +142,25 @@ CHECKS['C17'] = (
     'Trusted: the one-time registry extraction (registry/extract_registry.py, values printed by this image\'s gcc/clang), the name-key function, registry decisions (count pseudo-constants excluded; '
     'either value accepted where glibc and LLVM disagree). Names no registry knows are not judged (counted as unmatched).',
     'DESIGN.md §6 C17')
+
+CHECKS['C09'] = (
+    'Lean 4 theorems: iter_tags/num_tags = the entries through the first DT_NULL with string attributes resolved (entries after the terminator ignored); string table selection by '
+    'link or by DT_STRTAB through the PT_LOAD map; get_table_offset for the followed tags; num_symbols exact under WFGnu or WFSysV (max-bucket chain walk, GNU precedence); '
+    'kernel-checked facts about the four regenerated d_tag tables; 11 struct ties; correspondence on Lean-assembled images with and without section headers',
+    'Proof: the dynamic table, its strings and the symbol count recovered through the hash tables are exactly the encoded ones, from the section view and from the segment view.',
+    'segment_view_eq_section_view is partial (container accessors and assembler placement are hypotheses: TableView, SegsView, strtab placement); symbols_exact takes the count and '
+    'st_name decoding as hypotheses; get_relocation_tables, get_symbol_by_name, the no-hash count fallback, the .dynstr by-name fallback and all error behaviour are correspondence-only.',
+    'DESIGN.md §6 C09')
+CHECKS['C04'] = (
+    'Lean 4 theorems: form round trip for all 45 forms x 32 configurations x all in-range operands; regenerated form table / abbrev / CU / TU structs = Spec (rfl), parser registered '
+    'under each form name = operand class of the form code; iter_DIEs = preorder flatten with parents (mutual induction over tree and forest, sibling shortcut included) given the '
+    'per-entry cache function; tiling; unit-relative references; correspondence of the full DIE model (abbrev parse, parse_DIE, indirect cascade, translation, top-DIE deferred hook, '
+    'children/sibling walk, references, type units) on Lean-encoded forests',
+    'Proof of the form layer and of the iteration/tiling layer; the entry layer between them (die_roundtrip, abbrev_roundtrip, v5/TU header round trips, value translation) is '
+    'correspondence-only so far (second-wave proofs in progress).',
+    'iter_dies_flatten takes "the cache function returns each flatten entry at its offset" (Covered) as a hypothesis — what die_roundtrip would discharge. '
+    'DW_FORM_ref_sig8 to a DWARF 5 type unit in .debug_info raises KeyError (known finding sig8-v5-type-unit). Legacy DW_FORM_ref (code 2) is special-cased in the model, not tied.',
+    'DESIGN.md §6 C04')
 
 NOT_YET = {
 }
